@@ -63,9 +63,9 @@ func c04R1(c *Ctx) {
 				cl := valClass(st.Val)
 				ok := false
 				if cl == "nil" || cl == "zero" {
-					ok = allowedNil[name]
+					ok = allowedNil[name] || c.helperOnlyCalledFrom(fn, allowedNil)
 				} else {
-					ok = name == csT+".enterPrecommit"
+					ok = name == csT+".enterPrecommit" || c.helperOnlyCalledFrom(fn, map[string]bool{csT + ".enterPrecommit": true})
 				}
 				c.R.Ob(rule, fmt.Sprintf("store:%s.%s=%s", name, fld, shorten(cl)), ok, c.Pos(st), fname(f), "lock field written outside the reviewed writers (value class "+shorten(cl)+")")
 			}
